@@ -112,6 +112,10 @@ def cat(parts):
 def parent(t):
     if tag(t) == "join" and len(t[1]) >= 2 and tag(t[1][-1]) != "spread":
         return J(t[1][:-1])
+    # an ancestor chain is widened at depth 3: parent^3(x) and everything above is "some ancestor of x"
+    # (a loop that climbs the tree - `while ...: p = os.path.dirname(p)` - then reaches a fixed point)
+    if tag(t) == "parent" and tag(t[1]) == "parent" and tag(t[1][1]) == "parent":
+        return t
     return ("parent", t)
 
 
